@@ -319,6 +319,17 @@ where $($args: Getable<'vm, 'vm> + 'vm,)*
     }
 }
 
+fn restore_stack(vm: &Thread, level: usize, stack_len: VmIndex) {
+    let mut context = vm.context();
+    let stack = StackFrame::<crate::stack::State>::current(&mut context.stack);
+    if crate::thread::reset_stack(stack, level).is_ok() {
+        let len = context.stack.len();
+        if len > stack_len {
+            context.stack.pop_many(len - stack_len);
+        }
+    }
+}
+
 fn block_on_sync<F, T>(f: F) -> F::Output
 where
     F: Future<Output = Result<T>>,
@@ -426,6 +437,8 @@ where
     fn call_first(&self, cx: &mut task::Context<'_> $(, $args: $args)*) -> Poll<Result<$ret_ty>> {
         let vm = self.value.vm();
         let mut context = vm.current_context();
+        let level = context.stack().get_frames().len();
+        let stack_len = context.stack().len();
         context.push(self.value.get_variant());
         $(
             $args.vm_push(&mut context)?;
@@ -434,7 +447,15 @@ where
             0.vm_push(&mut context).unwrap();
         }
         let args = count!($($args),*) + <$ret_ty as VmType>::EXTRA_ARGS;
-        let context =  ready!(vm.call_function(cx, context.into_owned(), args))?;
+        let context = match ready!(vm.call_function(cx, context.into_owned(), args)) {
+            Ok(context) => context,
+            Err(err) => {
+                // Leave the thread as it was before the call, the frames and values of the failed
+                // call would otherwise make every later evaluation on this thread fail as well
+                restore_stack(vm, level, stack_len);
+                return Poll::Ready(Err(err));
+            }
+        };
         let mut context = context.unwrap();
         let result = {
             let value = context.stack.last().unwrap();
